@@ -248,6 +248,18 @@ def host_workload(ops, rng, n):
                     ops.set(1, op, sp + (':81' if op == 'host' and sp.endswith(']') and sp != cur else ''))
                     ops.reparse(1)
                     ops.parse(2, 1, '../x')
+    # a host setter that FAILS on an object whose host is an IP address: every observable (the host kind included) stays
+    for cur in ('127.0.0.1:8080', '[::1]', '[2001:db8::7]:81', '1.2.3.4', 'example.com', 'xn--9ca.example'):
+        for scheme in ('http', 'ws', 'foo'):
+            if scheme == 'foo' and not cur.startswith('['):
+                continue
+            for bad in ('exa mple.com', '[::1', '1.2.3.4.5', 'a<b', '[1:2:3:4:5:6:7:8:9]', '0x100000000', 'a^b', '%zz', 'xn--a.com', '[::1]x', 'h:x'):
+                for op in ('host', 'hostname'):
+                    ops.reset()
+                    ops.parse(1, 0, '%s://%s/a/b?q#f' % (scheme, cur))
+                    ops.set(1, op, bad)
+                    ops.parse(2, 1, '../c')
+                    ops.reparse(1)
     # the IPv4 number lattice: every boundary value in every base (decimal, hex in both cases, octal, extra leading
     # zeros) as the last part of a 1-, 2-, 3- and 4-part address, with and without the trailing dot
     k = 0
